@@ -130,6 +130,31 @@ func extractLink(repo string, o *out) {
 	}
 	o.emit("remove_flush_timeout_ns", "", "Z", rm, "5000000000", "", "")
 
+	// ---- a link leaves the collection (RemoveLink) only from write(), i.e. after the destination was closed: until then every
+	// chain operation (add / update / remove / reset) reaches it, also when its source has already hit EOF and toxics still hold data
+	unreg := ""
+	{
+		callers := map[string]bool{}
+		for _, f := range p.files {
+			for _, d := range f.Decls {
+				fd, ok := d.(*ast.FuncDecl)
+				if !ok || fd.Body == nil || fd.Recv == nil || recvType(fd) != "ToxicLink" {
+					continue
+				}
+				if find(fd.Body, func(x ast.Node) bool {
+					c, ok := x.(*ast.CallExpr)
+					return ok && strings.HasSuffix(show(fs, c.Fun), ".RemoveLink")
+				}) != nil {
+					callers[fd.Name.Name] = true
+				}
+			}
+		}
+		if w := p.method("ToxicLink", "write"); w != nil && len(callers) > 0 {
+			unreg = boolS(len(callers) == 1 && callers["write"])
+		}
+	}
+	o.emit("link_unregistered_only_by_writer", "", "bool", unreg, "true", "", "")
+
 	// ---- per-connection toxic state (limit_data's byte counter) is created for NEW stubs only: NewState() is reached from Start
 	// (every stub is new) and from AddToxic for the stub it appends (index i := len(link.stubs)), never from the restarts of
 	// existing stubs in AddToxic / UpdateToxic / RemoveToxic, directly or through a helper method
